@@ -35,7 +35,6 @@ use egg::{rewrite as rw, *};
 
 use super::{Config, EGraph, Expr, ExprExt, Pattern, Rewrite};
 use crate::catalog::RootCatalogRef;
-use crate::types::F32;
 
 pub mod agg;
 pub mod expr;
@@ -117,10 +116,15 @@ impl Analysis<Expr> for ExprAnalysis {
             egg::merge_option(&mut to.range, from.range, |_, _| DidMerge(false, true));
         let merge_columns = merge_small_set(&mut to.columns, from.columns);
         let merge_schema = egg::merge_max(&mut to.schema, from.schema);
-        let merge_rows = egg::merge_min(
-            unsafe { std::mem::transmute::<&mut f32, &mut F32>(&mut to.rows) },
-            F32::from(from.rows),
-        );
+        // Keep the smaller estimate, but ignore a decrease within rounding error: in a cyclic
+        // e-class (`x = x and true`) the estimate is a function of itself, and a product that
+        // rounds down by one ulp each time would otherwise be re-analyzed forever.
+        let merge_rows = if from.rows < to.rows - to.rows.abs() * 1e-6 {
+            to.rows = from.rows;
+            DidMerge(true, false)
+        } else {
+            DidMerge(false, from.rows != to.rows)
+        };
         let merge_order = egg::merge_max(&mut to.orderby, from.orderby);
         merge_const | merge_range | merge_columns | merge_schema | merge_rows | merge_order
     }
